@@ -379,6 +379,36 @@ func seedIOErrors(it *Interp, st *state) {
 }
 
 // readerModels: bytes.NewReader and binary.Read on a reader at a concrete position (E2).
+func typeWidth2(t types.Type) (int, bool) {
+	w, _, ok := typeWidth(t)
+	return w, ok
+}
+
+// flattenAgg emits the integer cells of a struct / array value in declaration order.
+func flattenAgg(v AggV, t types.Type, path string, emit func(BV) bool) bool {
+	if _, _, isInt := typeWidth(t); isInt {
+		c, ok := v.Cells[path].(BV)
+		return ok && emit(c)
+	}
+	switch u := t.Underlying().(type) {
+	case *types.Struct:
+		for i := 0; i < u.NumFields(); i++ {
+			if !flattenAgg(v, u.Field(i).Type(), path+"."+u.Field(i).Name(), emit) {
+				return false
+			}
+		}
+		return true
+	case *types.Array:
+		for i := 0; i < int(u.Len()); i++ {
+			if !flattenAgg(v, u.Elem(), fmt.Sprintf("%s[%d]", path, i), emit) {
+				return false
+			}
+		}
+		return true
+	}
+	return false
+}
+
 // zeroBuffer: a bytes.Buffer / bytes.Reader that was not made by a modelled constructor
 // (`new(bytes.Buffer)`, `var b bytes.Buffer`) is the empty buffer: give it the model's cells on first use.
 func zeroBuffer(it *Interp, st *state, o *MemObj) {
@@ -528,6 +558,14 @@ func readerModels(it *Interp) {
 				}
 				break
 			}
+			if _, isInt := typeWidth2(pt.Elem()); !isInt {
+				// a pointer to a struct / array of integers: its fields in declaration order
+				ag, isAgg := it.load(st, v, pt.Elem()).(AggV)
+				if !isAgg || !flattenAgg(ag, pt.Elem(), "", split) {
+					return nil, false
+				}
+				break
+			}
 			lv, ok := it.load(st, v, pt.Elem()).(BV)
 			if !ok || !split(lv) {
 				return nil, false
@@ -636,6 +674,9 @@ func readerModels(it *Interp) {
 		}
 		return it.constBV(uint64(data.Len-pos), 64).signed(), true
 	}
+	// a bytes.Reader over a slice has the same position/length model as a buffer used for reading
+	it.Models["(*bytes.Reader).ReadByte"] = it.Models["(*bytes.Buffer).ReadByte"]
+	it.Models["(*bytes.Reader).Len"] = it.Models["(*bytes.Buffer).Len"]
 	it.Models["encoding/binary.Read"] = func(it *Interp, st *state, call *ssa.CallCommon, args []Value) (Value, bool) {
 		rp, ok := args[0].(Ptr)
 		if !ok {
